@@ -49,8 +49,59 @@ def all_units():
             out.append(d)
     return out
 
+def parse_contract_decls(u):
+    """function contracts declared in contracts.c as '<ret> <fn>_contract(<params>) __CPROVER_...;'"""
+    path = os.path.join(u['dir'], u.get('contracts', 'contracts.c'))
+    if not os.path.exists(path):
+        return []
+    r = subprocess.run(['gcc', '-E', '-P', '-x', 'c', '-I', os.path.join(ROOT, 'stubs'), '-I', u['dir']] +
+                       ['-D' + d for d in u.get('defines', [])] + [path],
+                       stdout=subprocess.PIPE, stderr=subprocess.PIPE, text=True)
+    txt = r.stdout
+    out = []
+    for m in re.finditer(r'([A-Za-z_][A-Za-z_0-9 \*]*?)\b([A-Za-z_][A-Za-z_0-9]*)_contract\s*\(([^()]*)\)\s*__CPROVER_', txt):
+        ret, fn, params = m.group(1).strip(), m.group(2), m.group(3).strip()
+        ps = []
+        if params and params != 'void':
+            for p in params.split(','):
+                p = p.strip()
+                mm = re.match(r'^(.*?)([A-Za-z_][A-Za-z_0-9]*)$', p)
+                ps.append((mm.group(1).strip(), mm.group(2)))
+        out.append((ret, fn, ps))
+    return out
+
+def auto_harness_text(u):
+    """one harness per contract: declare (nondeterministic) arguments, call the function; all set-up is the
+    contract's precondition"""
+    lines = ['/* generated: one harness per function contract in contracts.c */']
+    for ret, fn, ps in parse_contract_decls(u):
+        if fn in u.get('no_auto_harness', ()):
+            continue
+        body = []
+        args = []
+        for k, (t, nm) in enumerate(ps):
+            if t.replace(' ', '') == '_Bool':
+                body.append('_Bool a%d = nondet_size_t() & 1;' % k)
+            else:
+                body.append('%s a%d;' % (t, k))
+            args.append('a%d' % k)
+        pre = u.get('auto_harness_pre', '')
+        lines.append('void h_%s(void) { %s %s %s(%s); FRGV_CANARY(); }' % (fn, pre, ' '.join(body), fn, ', '.join(args)))
+    return '\n'.join(lines) + '\n'
+
 def unit_obligations(u, tier):
     obs = [dict(o) for o in u.get('obligations', [])]
+    if u.get('auto_harness'):
+        ah = u['auto_harness']
+        over = u.get('contract_overrides', {})
+        for ret, fn, ps in parse_contract_decls(u):
+            if fn in u.get('no_auto_harness', ()):
+                continue
+            o = dict(id='%s.%s' % (u['name'], fn), entry='h_' + fn, enforce=['%s/%s_contract' % (fn, fn)],
+                     function=fn, expect_kinds=['postcondition'])
+            o.update(ah)
+            o.update(over.get(fn, {}))
+            obs.append(o)
     gen = getattr(u['module'], 'obligations', None)
     if gen is not None:
         obs += [dict(o) for o in gen(tier)]
@@ -112,10 +163,14 @@ def extract_unit(u, bdir):
     for pre in u.get('pre_includes', []):
         tu.append('#include "%s"' % os.path.join(u['dir'], pre))
     tu.append('#include "%s"' % os.path.join(bdir, 'unit.c'))
-    for f in u.get('sources', ['contracts.c', 'harness.c']):
+    srcs = list(u.get('sources', ['contracts.c', 'harness.c']))
+    for f in srcs:
         p = os.path.join(u['dir'], f)
         if os.path.exists(p):
             tu.append('#include "%s"' % p)
+    if u.get('auto_harness'):
+        open(os.path.join(bdir, 'auto_harness.c'), 'w').write(auto_harness_text(u))
+        tu.append('#include "%s"' % os.path.join(bdir, 'auto_harness.c'))
     open(os.path.join(bdir, 'tu.c'), 'w').write('\n'.join(tu) + '\n')
     return meta
 
